@@ -249,8 +249,11 @@ class Adapter:
     def warm(self, simu):
         """what post-processing does before looking at an older iteration: assembled matrices of every
         problem and the scalar (energy) results of the CURRENT state -> caches are up to date"""
-        for pt in simu.Get_problemTypes():
-            simu.Get_K_C_M_F(pt)
+        if not simu.isNonLinear:
+            # (a nonlinear simulation assembles about the Newton iterate of its last Solve: Get_K_C_M_F is then
+            # not a post-processing call; its energies below go through the same caches)
+            for pt in simu.Get_problemTypes():
+                simu.Get_K_C_M_F(pt)
         for nm in simu.Results_Available():
             if nm in self.skip_results:
                 continue
@@ -601,9 +604,10 @@ def mesh_sig(mesh):
 
 
 class Run:
-    def __init__(self, case, root, load_shift=0):
+    def __init__(self, case, root, load_shift=0, init_folder=0):
         self.case = case
         self.load_shift = load_shift
+        self.trace = []         # what every restore / read brought back, in order (memory-vs-disk comparison)
         self.ad = ADAPTERS[case["sim"]]()
         self.ad.mixed = bool(case.get("mixed"))
         self.ad.algo = case.get("algo")
@@ -611,6 +615,8 @@ class Run:
         self.rates_nonzero = 0   # saved iterations whose rate fields (v, a / thermalDot) were all non-zero
         self.root = os.path.join(root, "case%s" % case["id"])
         self.simu = self.ad.build("")
+        if init_folder:
+            self.simu.folder = os.path.join(self.root, "f%d" % init_folder)
         self.reg = {"0": None}  # token -> sha (per field the zero vector differs in size: handled by driver via 'zero')
         self.ghost = []       # (indexMesh, mesh_sig, [deep copies per field], [Result values per field])
         self.handed = []
@@ -843,9 +849,14 @@ class Run:
             except Exception as ex:
                 self.fail("save-crash", n, {"error": type(ex).__name__ + ": " + str(ex)[:200]})
                 self.handed = []
+                if len(op) > 2 and op[2] == "mem":
+                    s.folder = ""
                 return
             self.simu = Load_Simu(f)
             self.loaded = True
+            if len(op) > 2 and op[2] == "mem":
+                self.simu.folder = ""      # memory variant of the scenario: keep storing dicts after the round trip
+                f = ""
             after = self.obs()
             if before != after:
                 diff = [k for k in before if before[k] != after[k]]
@@ -862,7 +873,13 @@ class Run:
         for n, op in enumerate(self.case["ops"]):
             try:
                 with contextlib.redirect_stdout(io.StringIO()):
+                    ninv = len([e for e in self.events if str(e[1]).endswith("-invalid")])
                     self.step(n, op)
+                    if op[0] in ("GetResults", "SetIter", "ResultQ", "GetResultsNeg", "SetIterNeg", "ResultQNeg") \
+                            and ninv == len([e for e in self.events if str(e[1]).endswith("-invalid")]):
+                        self.trace.append({"op": op[0], "live": [sha(x) for x in self.ad.live(self.simu)],
+                                           "handed": [sha(x) for x in self.handed], "mesh": int(self.simu._Simu__indexMesh),
+                                           "niter": int(self.simu.Niter)})
             except Exception as ex:  # the implementation raised on a valid op list
                 import traceback
                 err = {"step": n, "op": op, "error": type(ex).__name__ + ": " + str(ex)[:300], "tb": traceback.format_exc()[-1500:],
@@ -1075,6 +1092,31 @@ PROBES = {"mesh_roundtrip": probe_mesh_roundtrip, "phasefield_save": probe_phase
           "save_then_folder_change": probe_save_then_folder_change}
 
 
+def mem_vs_disk(c, root):
+    """the SAME scenario on two identical simulations: once with every iteration kept in memory (folder ""),
+    once with every iteration written to disk (scratch folders, the scenario's folder changes kept); what every
+    restore / read brings back must agree bitwise"""
+    cm = dict(c, ops=[(["SetFolder", 0] if o[0] == "SetFolder" else (["SaveLoad", o[1], "mem"] if o[0] == "SaveLoad" else o)) for o in c["ops"]])
+    cd = dict(c, ops=[(["SetFolder", o[1] if o[1] else 3] if o[0] == "SetFolder" else o) for o in c["ops"]])
+    cm.pop("twin", None), cd.pop("twin", None)
+    rm = Run(cm, root + "_mem")
+    om = rm.run()
+    rd_ = Run(cd, root + "_disk", init_folder=1)
+    od = rd_.run()
+    out = {"n_mem": len(rm.trace), "n_disk": len(rd_.trace), "error_mem": (om["error"] or {}).get("error"), "error_disk": (od["error"] or {}).get("error"),
+           "entries_mem": sorted(set(om.get("final", {}).get("entries", []))), "entries_disk": sorted(set(od.get("final", {}).get("entries", []))),
+           "diff": None, "n_compared": 0}
+    for k, (a, b) in enumerate(zip(rm.trace, rd_.trace)):
+        out["n_compared"] += 1
+        for what in ("live", "handed", "mesh", "niter"):
+            if a[what] != b[what]:
+                out["diff"] = {"read_number": k, "op": a["op"], "what": what, "mem": a[what], "disk": b[what]}
+                return out
+    if out["error_mem"] is None and out["error_disk"] is None and len(rm.trace) != len(rd_.trace):
+        out["diff"] = {"read_number": min(len(rm.trace), len(rd_.trace)), "op": "-", "what": "number-of-accepted-reads", "mem": len(rm.trace), "disk": len(rd_.trace)}
+    return out
+
+
 def main():
     req = json.loads(sys.stdin.read())
     if req.get("query") == "algos":
@@ -1115,6 +1157,8 @@ def main():
                 r2["error"]["second_simulation"] = True
             r2["twin"] = True
             r = r2
+        if c.get("memdisk"):
+            r["memdisk"] = mem_vs_disk(c, root)
         res["cases"].append(r)
     for p in req.get("probes", []):
         try:
